@@ -33,6 +33,7 @@ RULE = (
     "node's families in order; an ancestral label is empty only if the synteny equals the parent's; wrapped labels keep the words, respect the width "
     "unless a single word is longer, and use no more lines than greedy wrapping.  Exhaustive wrapper layer: all word-length tuples (<=5 words quick, "
     "<=6 thorough, lengths 1..5) x widths 1..14.  Non-trivial: a nested colour or a wrapped label or an escaped character occurs; distinct by SHA-1."
+    '  Also: the wrapper layer includes 6-7 words with one over-long word at every position; sets for unordered syntenies (labels then compared as family sets); leaf names without underscore when leaves are labelled by their synteny; history as in C13.'
 )
 ASSUMPTIONS = ["family names without backslash; no spaces or hyphens in names", "colours are 6 hex digits"]
 BUDGET = {"quick": {"random": 1200}, "thorough": {"random": 20000}}
